@@ -7,22 +7,34 @@ S1  TLC checks HotParamQps.tla exhaustively for several small configurations: th
 S2  scenarios: (a) one per transition of small bounded instances (ACTION_CONSTRAINT Emit), (b) TLC random
     simulation of larger ones, (c) seeded random multi-value arrival histories over realistic configurations
     (thresholds, bursts, durations, queueing limits, specific items, capacity above / below the number of
-    live values).  Python decorates every request with a concrete argument layout (index 0 / -1 / 1 / -2,
+    live values), (d) the FLOOD family: hot value / flood of n fresh values / hot value again inside the same
+    duration, for explicit capacities on both sides of every internal constant of the library (3, 1000, 3999, 4000,
+    12001, 20000, 20001, 30000) and the derived defaults (4000 x seconds, cut at 20000), n just below / at / above
+    the room left, split floods with an admitted request of the hot value in between, both control behaviours.
+    Floods are also part of (a)-(c) (small capacities).  Python decorates every request with a concrete argument layout (index 0 / -1 / 1 / -2,
     attachment key present / absent, out-of-range positions) and an argument type.
+    S1 also runs spec-level mutants (caches sized by a clamp that also cuts an explicit capacity / one entry
+    short): TLC must reject them (KeepOK with the full invariant set, IndepOK / E1OK / P1OK at decision level).
 S3  harness/cmd/c05 replays them on the real code under the virtual clock and records decision + Sleep;
     every request is also issued on a "solo" resource that only sees that value (Independence).
 S4  HotParamQps_Trace.tla (TLC) judges every recorded decision against the ENVELOPES (a relation); the
     implementation-shaped layer runs alongside and reports conformance drift (informational).
 """
-import json, os
+import json, os, shutil, subprocess, time
+from concurrent.futures import ThreadPoolExecutor
 import vlib
-from vlib import main, write_ndjson, read_ndjson, MachineryError
+from vlib import main, write_ndjson, read_ndjson, MachineryError, TLCResult, TLA_CP, SPEC
 
 TYPES = ['int', 'string', 'bool', 'float', 'struct', 'mix', 'int64']
 ITEMS = {0: {}, 1: {'a': 0, 'b': 5}, 2: {'a': 3}, 3: {'b': 1}}
 
 
-def mc_cfg(mode, T, B, D, MQ, items, cap, values, batches, steps, maxt, maxops, emit=False, inv=True):
+INVARIANTS = 'TypeOK E1OK E2OK E3OK P1OK P2OK NoArgOK IndepOK KeepOK FloodFreshOK NoHang CachesAgree CapOK'
+
+
+def mc_cfg(mode, T, B, D, MQ, items, cap, values, batches, steps, maxt, maxops, floods=(), capbase=1, capmax=2, mutant='',
+           emit=False, inv=True):
+    """cap = Rule.ParamsMaxCapacity as configured (0 = the derived default min(capmax, capbase * seconds of duration))"""
     return """SPECIFICATION Spec
 CONSTANTS
   Values = {%s}
@@ -33,7 +45,11 @@ CONSTANTS
   MCD = %d
   MCMQ = %d
   MCItemsSel = %d
-  MCCap = %d
+  PCap = %d
+  CapBase = %d
+  CapMax = %d
+  Floods = {%s}
+  Mutant = "%s"
   Batches = {%s}
   Steps = {%s}
   MaxT = %d
@@ -42,8 +58,9 @@ VIEW view
 %s
 %s
 CHECK_DEADLOCK FALSE
-""" % (', '.join('"%s"' % v for v in values), mode, T, B, D, MQ, items, cap, ', '.join(map(str, batches)), ', '.join(map(str, steps)),
-       maxt, maxops, 'INVARIANTS TypeOK E1OK E2OK E3OK P1OK P2OK NoArgOK IndepOK NoHang CachesAgree CapOK' if inv else '',
+""" % (', '.join('"%s"' % v for v in values), mode, T, B, D, MQ, items, cap, capbase, capmax,
+       ', '.join(map(str, floods)), mutant, ', '.join(map(str, batches)), ', '.join(map(str, steps)),
+       maxt, maxops, 'INVARIANTS ' + INVARIANTS if inv else '',
        'ACTION_CONSTRAINT Emit' if emit else '')
 
 
@@ -95,16 +112,102 @@ def shape(rng, idx, key, v, fillers=('x', 'y')):
 
 
 def build(rng, tr, cf, reqs, pcap=None):
-    """reqs: list of (t, v, b) -> driver scenario"""
+    """reqs: list of (t, v, b) = one request / ('flood', t, n) = n requests with n fresh values -> driver scenario.
+    cf['cap'] is the capacity the property speaks of; pcap (default: the same) is what the rule configures (0 = default)"""
     idx, key = layout(rng)
-    vals = sorted({v for _, v, _ in reqs if v != '-'})
+    vals = sorted({r[1] for r in reqs if r[0] != 'flood' and r[1] != '-'})
     s = [dict(op='new', tr=tr, ty=rng.choice(TYPES), cf=cf, idx=idx, key=key, vals=vals)]
     if pcap is not None:
         s[0]['pcap'] = pcap
-    for t, v, b in reqs:
+    nf = 0
+    for r in reqs:
+        if r[0] == 'flood':
+            nf += 1
+            args, atts = shape(rng, idx, key, '*')
+            s.append(dict(op='flood', t=r[1], n=r[2], prefix='f%d' % nf, args=args, atts=atts))
+            continue
+        t, v, b = r
         args, atts = shape(rng, idx, key, v)
         s.append(dict(op='req', t=t, v=v, args=args, atts=atts, b=b))
     return s
+
+
+def of_hist(hist):
+    """operations of a TLC-generated history"""
+    return [('flood', o['t'], o['n']) if o['op'] == 'flood' else (o['t'], o['v'], o['b']) for o in hist]
+
+
+def default_cap(D):
+    return min(20000, 4000 * (D // 1000))
+
+
+# (configured capacity (0 = default), duration ms): explicit capacities on both sides of the library's constants
+# (ParamsCapacityBase * seconds = 4000 / 12000, ParamsMaxCapacity = 20000) and the derived defaults themselves
+FLOOD_CAPS = [(3, 1000), (1000, 1000), (3999, 1000), (4001, 1000), (4000, 3000), (12001, 3000), (0, 1000), (0, 3000), (0, 5000),
+              (0, 6000), (20000, 1000), (20001, 1000), (30000, 2000), (30000, 6000)]
+FLOOD_VARIANTS = ['below', 'below', 'at', 'above', 'split', 'mix']
+
+
+def flood_scenario(rng, tr, mode, pcap, D, variant):
+    """hot value a (takes what it can get) / [another named value] / flood / a again inside the same duration / ..."""
+    cap = pcap if pcap > 0 else default_cap(D)
+    T = rng.choice([1, 1, 2, 3])
+    B = rng.choice([0, 0, 1, 2]) if mode == 'reject' else 0
+    MQ = rng.choice([0, D // 2, 2 * D, 3 * D]) if mode == 'throttle' else 0
+    items = rng.choice([{}, {}, {'b': rng.choice([0, 1, 4])}, {'a': rng.choice([1, 2])}])
+    cf = dict(mode=mode, T=T, B=B, D=D, MQ=MQ, items=items, cap=cap)
+    ta = items.get('a', T)
+    t = rng.choice([0, 1, 500])
+    ops = []
+    if variant == 'split':
+        # a / flood k1 / a (admitted: recently used again) / flood k2 / a must still be limited; k1 + k2 > capacity > k1, k2
+        if mode == 'reject':
+            cf['T'], cf['B'], cf['items'] = 3, rng.choice([0, 1]), {k: v for k, v in items.items() if k != 'a'}
+            ta = 3
+            bs = [1, 1, 3 + cf['B']]
+        else:
+            cf['MQ'] = 3 * D
+            bs = [1, 1, 1]
+        k1 = max(1, rng.choice([cap - 1, cap // 2 + 1, (2 * cap) // 3]))
+        k1 = min(k1, cap - 1) if cap > 1 else 1
+        k2 = max(1, min(cap - 1, cap - k1 + rng.choice([1, 2, cap // 4])))
+        ops = [(t, 'a', bs[0]), ('flood', t, k1), (t + rng.choice([0, 1]), 'a', bs[1]), ('flood', t + 1, k2), (t + 1, 'a', bs[2]), (t + 2, 'a', 1)]
+    elif variant == 'mix':
+        for _ in range(rng.randint(5, 9)):
+            x = rng.random()
+            if x < 0.45:
+                ops.append((t, 'a', rng.choice([1, 1, ta + B])))
+            elif x < 0.6:
+                ops.append((t, 'b', 1))
+            else:
+                ops.append(('flood', t, max(1, rng.choice([cap - 1, cap - 2, cap // 2, cap // 3, cap, 1, 2]))))
+            t += rng.choice([0, 0, 1, D // (4 * T), D // 2])
+        ops.append((t, 'a', 1))
+    else:
+        ops.append((t, 'a', (ta + B) if mode == 'reject' else 1))
+        others = 0
+        if rng.random() < 0.5 and cap > 2:
+            ops.append((t + rng.choice([0, 1]), 'b', 1))
+            others = 1
+        room = cap - 1 - others          # the largest flood that keeps a's rank below the capacity
+        if variant == 'below':
+            n = rng.choice([room, room, room - 1, max(1, room // 2)])
+        elif variant == 'at':
+            n = room + 1
+        else:
+            n = room + 1 + rng.choice([1, 2, 50])
+        n = max(1, n)
+        ops.append(('flood', t + 1, n))
+        iv = D // max(1, ta)
+        t2 = t + 1 + rng.choice([0, 1, iv // 2, max(0, iv - 3)])      # inside the same duration, before any token is due
+        ops += [(t2, 'a', 1), (t2, 'a', 1)]
+        if others:
+            ops.append((t2, 'b', 1))
+        if rng.random() < 0.5:
+            ops.append(('flood', t2, rng.choice([1, 2, max(1, cap // 3)])))
+            ops.append((t2 + 1, 'a', 1))
+        ops.append((t2 + D + 1 + rng.choice([0, D]), 'a', 1))       # idle for longer than the duration: granted again
+    return build(rng, tr, cf, ops, pcap)
 
 
 def random_scenario(c, tr):
@@ -123,7 +226,12 @@ def random_scenario(c, tr):
         cap = rng.choice([1, 2, 3, 100, 100])
     cf = dict(mode=mode, T=T, B=B, D=D, MQ=MQ, items=items, cap=cap)
     reqs, t = [], rng.choice([0, 0, 1, 999])
+    pflood = rng.choice([0, 0, 0.04, 0.1]) if cap <= 100 else rng.choice([0, 0, 0, 0.04])
     for _ in range(rng.randint(15, 45)):
+        if rng.random() < pflood:
+            reqs.append(('flood', t, max(1, rng.choice([1, 1, 2, cap - 1, cap - 2, cap - len(vals), cap, cap // 2]))))
+            t += rng.choice([0, 0, 1, D // 2, D + 1])
+            continue
         v = rng.choice(vals) if rng.random() < 0.93 else '-'
         tv = items.get(v, T)
         b = rng.choice([1, 1, 1, 1, 2, 3, max(1, tv), tv + B, tv + B + 1, 0 if rng.random() < 0.2 else 1])
@@ -170,7 +278,7 @@ def tv_of(cf, v):
     return cf['items'].get(v, cf['T'])
 
 
-def binding_selftest(c, tp, bad_traces):
+def binding_selftest(c, tp, bad_traces, key='binding_selftest'):
     """corrupt one recorded request in each of the first clean traces so that it leaves the envelope; all must be rejected
     with the matching clause"""
     traces = split_traces(read_ndjson(tp))
@@ -182,15 +290,20 @@ def binding_selftest(c, tp, bad_traces):
         if tr in bad_traces or len(want) >= 60:
             continue
         cf = lines[0]['cf']
-        seen, cands = set(), []
+        seen, cands, flooded = set(), [], 0
         for e in lines[1:]:
+            if e['op'] == 'flood':
+                flooded += e['n']
+                if cf['T'] >= 1 and e['adm'] == e['n']:
+                    cands.append(('flood', e))
+                continue
             v = e['v']
             if v == '-':
                 cands.append(('noarg', e))
                 continue
             first = v not in seen
             seen.add(v)
-            within = len(seen) <= cf['cap']
+            within = len(seen) + flooded <= cf['cap']       # (sufficient for "the capacity is not exceeded for v")
             if within:
                 cands.append(('indep', e))
             if cf['mode'] == 'reject' and e['ok'] and within:
@@ -204,6 +317,8 @@ def binding_selftest(c, tp, bad_traces):
         # prefer a uniform mix of clauses
         kinds = sorted({k for k, _ in cands})
         kind = kinds[len(want) % len(kinds)]
+        if 'flood' in kinds and sum(1 for k in want.values() if k.startswith('flood')) < 8:
+            kind = 'flood'
         e = c.rng.choice([e for k, e in cands if k == kind])
         if kind == 'noarg':
             e['ok'] = False
@@ -217,6 +332,9 @@ def binding_selftest(c, tp, bad_traces):
         elif kind == 'P2':
             e['wait'] = max(cf['MQ'], 1)
             e['solo']['wait'] = e['wait']
+        elif kind == 'flood':       # one of the fresh values refused
+            e['adm'] -= 1
+            kind = 'flood:' + ('E3' if cf['mode'] == 'reject' else 'indep')
         want[tr] = kind
         out += lines
     if len(want) < 5:
@@ -228,14 +346,15 @@ def binding_selftest(c, tp, bad_traces):
     if consumed != len(out):
         raise MachineryError('binding self-test: corrupted trace file not consumed (%d of %d)' % (consumed, len(out)))
     got = {m[0]: json.loads(m[2])['why'] for m in mism}
-    wrong = {tr: (k, got.get(tr)) for tr, k in want.items() if tr not in got or (k != got[tr] and not (k == 'E2' and got[tr] == 'E1'))}
+    wrong = {tr: (k, got.get(tr)) for tr, k in want.items()
+             if tr not in got or (k.split(':')[-1] != got[tr] and not (k == 'E2' and got[tr] == 'E1'))}
     if wrong or set(got) - set(want):
         raise MachineryError('binding self-test failed: (trace: corrupted clause, reported clause) %s; unexpected %s' % (
             wrong, sorted(set(got) - set(want))))
     kinds = {}
     for k in want.values():
-        kinds[k] = kinds.get(k, 0) + 1
-    c.cov['binding_selftest'] = '%d corrupted traces, all rejected with the matching clause %s' % (len(want), kinds)
+        kinds[k.split(':')[0]] = kinds.get(k.split(':')[0], 0) + 1
+    c.cov[key] = '%d corrupted traces, all rejected with the matching clause %s' % (len(want), kinds)
     c.log('binding self-test: %d corrupted traces, all rejected by HotParamQps_Trace %s' % (len(want), kinds))
 
 
@@ -258,8 +377,13 @@ CLAUSE = {
 
 
 def describe(exp, obs):
-    return '%s (value %s, threshold %s, tokens admitted so far %s, first seen %s, idle %s); observed %s' % (
-        CLAUSE.get(exp.get('why'), exp.get('why')), exp.get('v'), exp.get('thr'), exp.get('tokens'), exp.get('first'), exp.get('idle'), obs[:400])
+    if 'n' in exp:
+        return ('%s: %s of the %s fresh values of a flood admitted (general threshold %s, capacity %s); observed %s' % (
+            CLAUSE.get(exp.get('why'), exp.get('why')), exp.get('admitted'), exp.get('n'), exp.get('thr'), exp.get('cap'), obs[:400]))
+    return ('%s (value %s, threshold %s, tokens admitted so far %s, first seen %s, idle %s, distinct other values since its last admitted '
+            'request %s, configured capacity %s); observed %s' % (
+                CLAUSE.get(exp.get('why'), exp.get('why')), exp.get('v'), exp.get('thr'), exp.get('tokens'), exp.get('first'), exp.get('idle'),
+                exp.get('rank'), exp.get('cap'), obs[:400]))
 
 
 def handle_mismatches(c, drv, scns, mism, tp, tag):
@@ -304,6 +428,38 @@ def count_nontrivial(scns, tp):
     return out
 
 
+def flood_stats(tp):
+    """evidence only (the verdicts are the trace spec's): requests of a tracked value that arrive with fresh flood values counted in
+    its recency rank, split by rank below the capacity (decision must be the one of its own sub-history) / at or above (either)"""
+    below = above = limited = 0
+    for lines in split_traces(read_ndjson(tp)).values():
+        cap = lines[0]['cf']['cap']
+        since, fl, lost = {}, {}, set()
+        for e in lines[1:]:
+            if e['op'] == 'flood':
+                for x in fl:
+                    fl[x] += e['n']
+                continue
+            v = e['v']
+            if v == '-':
+                continue
+            if v in since:
+                if len(since[v]) + fl[v] >= cap:
+                    lost.add(v)
+                if fl[v] > 0:
+                    if v in lost:
+                        above += 1
+                    else:
+                        below += 1
+                        limited += 1 if (not e['ok'] or e['wait'] > 0) else 0
+            if e['ok'] or v not in since:
+                since[v], fl[v] = set(), 0
+            for x in since:
+                if x != v:
+                    since[x].add(v)
+    return below, limited, above
+
+
 def maximal(hs):
     keys = sorted(json.dumps(x, sort_keys=True)[:-1] for x in hs)
     out = []
@@ -333,6 +489,27 @@ S1_THOROUGH = [
     ('throttle', 3, 0, 1000, 334, 1, 100, ['a', 'b'], [1, 2], [333, 334], 1002, 5),
     ('throttle', 1, 0, 2000, 2000, 0, 2, ['a', 'b'], [1, 2], [1000, 1999], 5998, 5),
 ]
+# floods: (..., dict(floods=sizes, capbase=, capmax=, mutant=)); cap = the CONFIGURED capacity (0 = derived default)
+S1_FLOOD = [
+    ('reject', 2, 1, 1000, 0, 2, 3, ['a', 'b'], [1, 3], [500, 1001], 1502, 4, dict(floods=[1, 2, 3])),            # explicit, above CapMax
+    ('throttle', 2, 0, 1000, 600, 3, 3, ['a', 'b'], [1, 2], [250, 1000], 1250, 4, dict(floods=[1, 2])),
+    ('reject', 1, 1, 3000, 0, 1, 0, ['a', 'b'], [1, 2], [1500, 3001], 4502, 4, dict(floods=[1, 2])),             # default, cut by CapMax
+    ('throttle', 1, 0, 2000, 2000, 0, 0, ['a', 'b'], [1], [1000, 1999], 3999, 4, dict(floods=[1, 2], capmax=3)),  # default = CapBase * seconds
+]
+S1_FLOOD_THOROUGH = [
+    ('reject', 2, 1, 1000, 0, 2, 3, ['a', 'b', 'c'], [1, 3], [500, 1001], 1502, 4, dict(floods=[1, 2, 3])),
+    ('reject', 2, 1, 1000, 0, 2, 3, ['a', 'b'], [1, 3], [500, 1001], 2002, 5, dict(floods=[1, 2, 3])),
+    ('throttle', 2, 0, 1000, 600, 3, 3, ['a', 'b', 'c'], [1, 2], [250, 1000], 1250, 4, dict(floods=[1, 2])),
+    ('throttle', 2, 0, 1000, 600, 3, 4, ['a', 'b'], [1, 2], [250, 1000], 1500, 5, dict(floods=[1, 3])),
+]
+# spec-level mutants of the sizing of the caches: (index into S1_FLOOD, mutant, invariants) -> must be rejected by TLC
+DECISION_LEVEL = 'E1OK E2OK E3OK P1OK P2OK NoArgOK IndepOK FloodFreshOK'
+SPEC_MUTANTS = [(0, 'clamp', INVARIANTS), (0, 'clamp', DECISION_LEVEL), (1, 'clamp', DECISION_LEVEL), (0, 'offbyone', DECISION_LEVEL),
+                (3, 'offbyone', INVARIANTS)]
+GEN_FLOOD = [
+    ('reject', 2, 1, 1000, 0, 2, 3, ['a', 'b'], [1, 3], [500, 1001], 1001, 4, dict(floods=[1, 2, 3])),
+    ('throttle', 2, 0, 1000, 600, 3, 2, ['a', 'b'], [1, 2], [250, 1000], 500, 4, dict(floods=[1, 2])),
+]
 GEN_QUICK = [
     ('reject', 2, 1, 1000, 0, 2, 2, ['a', 'b', 'c'], [1, 3], [500, 1001], 2002, 3),
     ('reject', 1, 2, 1000, 0, 1, 1, ['a', 'b'], [1, 2], [400, 1001], 2402, 3),
@@ -345,6 +522,93 @@ SIM = [
     ('reject', 5, 0, 2000, 0, 2, 100, ['a', 'b', 'c'], [1, 3, 5], [1, 700, 2000, 2001], 15000, 16),
     ('throttle', 1, 0, 2000, 2500, 3, 100, ['a', 'b', 'c'], [1, 2], [1, 1000, 1999, 2000], 15000, 16),
 ]
+SIM_FLOOD = [
+    ('reject', 3, 1, 1000, 0, 2, 6, ['a', 'b', 'c'], [1, 2, 4], [1, 250, 999, 1001], 9000, 16, dict(floods=[1, 2, 3, 5])),
+    ('throttle', 3, 0, 1000, 700, 1, 5, ['a', 'b', 'c'], [1, 2], [1, 100, 333, 334, 1000], 6000, 16, dict(floods=[1, 2, 4])),
+]
+
+
+def kw_of(p):
+    return dict(p[12]) if len(p) > 12 else {}
+
+
+def inv_cfg(p, mutant, invs):
+    return mc_cfg(*p[:12], **dict(kw_of(p), mutant=mutant)).replace('INVARIANTS ' + INVARIANTS, 'INVARIANTS ' + invs)
+
+
+def tlc_many(c, jobs):
+    """several small TLC runs of HotParamQps_MC side by side (variant of Check.tlc: own directory per job).
+    jobs = [(name, cfg_text, extra_args)]; returns {name: TLCResult}; every run is listed in the evidence"""
+    def one(job):
+        name, text, args = job
+        d = os.path.join(c.scratch, 'ptlc-' + name)
+        os.makedirs(d)
+        for f in os.listdir(SPEC):
+            if f.startswith('HotParam') and f.endswith('.tla'):
+                shutil.copy(os.path.join(SPEC, f), d)
+        open(os.path.join(d, 'HotParamQps_MC.cfg'), 'w').write(text)
+        cmd = ['java', '-XX:+UseParallelGC', '-Xmx3g', '-Xss64m', '-cp', TLA_CP, 'tlc2.TLC', '-workers', '2' if '-simulate' not in args else '1',
+               '-metadir', os.path.join(d, 'md'), '-noGenerateSpecTE'] + list(args) + ['HotParamQps_MC']
+        t = time.time()
+        try:
+            p = subprocess.run(cmd, cwd=d, stdout=subprocess.PIPE, stderr=subprocess.STDOUT, text=True, timeout=900)
+            out, rc = p.stdout, p.returncode
+        except subprocess.TimeoutExpired as e:
+            out, rc = (e.stdout.decode() if isinstance(e.stdout, bytes) else (e.stdout or '')), 124
+            subprocess.run(['pkill', '-f', d], stdout=subprocess.DEVNULL, stderr=subprocess.DEVNULL)
+        r = TLCResult(out, rc, time.time() - t)
+        if rc == 124:
+            r.error = 'timeout'
+        shutil.rmtree(os.path.join(d, 'md'), ignore_errors=True)
+        return name, r
+    with ThreadPoolExecutor(max_workers=5) as ex:
+        res = dict(ex.map(one, jobs))
+    return res
+
+
+def flood_jobs(c, thorough):
+    """the TLC runs about floods / the capacity: exhaustive checks, spec-level mutants, scenario generation"""
+    jobs = []
+    for i, p in enumerate(S1_FLOOD + (S1_FLOOD_THOROUGH if thorough else [])):
+        jobs.append(('s1-%d' % i, mc_cfg(*p[:12], **kw_of(p)), []))
+    for i, (k, mutant, invs) in enumerate(SPEC_MUTANTS):
+        jobs.append(('mutant-%d' % i, inv_cfg(S1_FLOOD[k], mutant, invs), []))
+    for i, p in enumerate(GEN_FLOOD):
+        jobs.append(('gen-%d' % i, mc_cfg(*p[:12], **dict(kw_of(p), emit=True, inv=False)), []))
+    for i, p in enumerate(SIM_FLOOD):
+        jobs.append(('sim-%d' % i, mc_cfg(*p[:12], **dict(kw_of(p), emit=True, inv=False)),
+                     ['-simulate', 'num=%d' % (100 if not thorough else 1000), '-depth', '24', '-seed', str(c.seed)]))
+    return jobs
+
+
+def flood_s1_results(c, res, thorough):
+    """S1 part of the side-by-side runs: exhaustive flood models hold, wrongly sized caches are rejected"""
+    for i, p in enumerate(S1_FLOOD + (S1_FLOOD_THOROUGH if thorough else [])):
+        r = res['s1-%d' % i]
+        if r.error:
+            raise MachineryError('TLC failed on HotParamQps_MC %s: %s\n%s' % (p[:7], r.error, r.out[-3000:]))
+        c.cov['states'] += r.distinct
+        c.cov['transitions'] += r.generated
+        c.cov['tlc_runs'].append(dict(module='HotParamQps_MC', cfg='flood %s floods=%s' % (list(p[:7]), kw_of(p).get('floods')), generated=r.generated,
+                                      distinct=r.distinct, depth=r.depth, wall_s=round(r.wall, 1), args='',
+                                      result='ok' if r.completed else (r.violated or 'deadlock')))
+        c.log('S1 HotParamQps_MC flood %s floods=%s: %d distinct states, %d transitions, depth %d, %.0fs -> %s' % (
+            p[:7], kw_of(p).get('floods'), r.distinct, r.generated, r.depth, r.wall, 'no error' if r.completed else 'VIOLATED ' + str(r.violated)))
+        if not r.completed:
+            c.inconclusive.append('HotParamQps.tla: %s violated for %s with floods - the algorithm layer no longer satisfies the property' % (r.violated, p[:7]))
+    rejected = {}
+    for i, (k, mutant, invs) in enumerate(SPEC_MUTANTS):
+        p, r = S1_FLOOD[k], res['mutant-%d' % i]
+        if r.error:
+            raise MachineryError('TLC failed on spec mutant %s of %s: %s\n%s' % (mutant, p[:7], r.error, r.out[-1500:]))
+        level = 'all invariants' if invs == INVARIANTS else 'decision-level invariants only'
+        c.cov['tlc_runs'].append(dict(module='HotParamQps_MC', cfg='mutant %s %s (%s)' % (mutant, list(p[:7]), level), generated=r.generated,
+                                      distinct=r.distinct, depth=r.depth, wall_s=round(r.wall, 1), args='', result=r.violated or 'NOT REJECTED'))
+        if not r.violated:
+            c.inconclusive.append('spec-level mutant %s (%s, %s) is NOT rejected by TLC: the capacity invariants are too weak' % (mutant, p[:7], level))
+        rejected['%s %s/cap %s (%s)' % (mutant, p[0], p[6] or 'default', level)] = r.violated
+    c.cov['spec_mutants_rejected_by'] = rejected
+    c.log('S1 spec-level mutants (cache sizing) rejected by: %s' % rejected)
 
 
 def check(c, tier, replay):
@@ -359,15 +623,17 @@ def check(c, tier, replay):
         return
     thorough = tier == 'thorough'
     # S1 ---------------------------------------------------------------------------------
+    # (the runs about floods - exhaustive checks, spec mutants, scenario generation - go on side by side in the background)
+    ex = ThreadPoolExecutor(max_workers=1)
+    fut = ex.submit(tlc_many, c, flood_jobs(c, thorough))
     for p in (S1_THOROUGH if thorough else S1_QUICK):
-        r = c.model_check('HotParamQps_MC', cfg_text=mc_cfg(*p), workers=8, timeout=3000)
+        r = c.model_check('HotParamQps_MC', cfg_text=mc_cfg(*p[:12], **kw_of(p)), workers=6, timeout=3000)
         if not r.completed:
             c.inconclusive.append('HotParamQps.tla: %s violated for %s - the algorithm layer no longer satisfies the envelopes' % (r.violated, p[:7]))
-    c.cov['exhaustive'] = True
     # S2 ---------------------------------------------------------------------------------
     scns, tr = [], 0
     for p in (GEN_QUICK if not thorough else GEN_QUICK + S1_QUICK):
-        r = c.tlc('HotParamQps_MC', cfg_text=mc_cfg(*p, emit=True, inv=False), workers=4, timeout=1500, count=False)
+        r = c.tlc('HotParamQps_MC', cfg_text=mc_cfg(*p[:12], **dict(kw_of(p), emit=True, inv=False)), workers=4, timeout=1500, count=False)
         if r.error:
             raise MachineryError('scenario generation failed: %s' % r.error)
         hs = r.json_prints()
@@ -377,33 +643,70 @@ def check(c, tier, replay):
             keep = c.rng.sample(keep, cap)
         for hist in keep:
             tr += 1
-            scns.append(build(c.rng, tr, cf_of(*p[:7]), [(o['t'], o['v'], o['b']) for o in hist]))
+            scns.append(build(c.rng, tr, cf_of(*p[:7]), of_hist(hist)))
         c.log('S2 transition cover %s: %d transitions -> %d scenarios' % (p[:7], len(hs), len(keep)))
     cover_n = len(scns)
     for p in SIM:
         num = 100 if not thorough else 1000
-        r = c.tlc('HotParamQps_MC', cfg_text=mc_cfg(*p, emit=True, inv=False), workers=1, timeout=900, count=False,
+        r = c.tlc('HotParamQps_MC', cfg_text=mc_cfg(*p[:12], **dict(kw_of(p), emit=True, inv=False)), workers=1, timeout=900, count=False,
                   args=['-simulate', 'num=%d' % num, '-depth', '24', '-seed', str(c.seed)])
         keep = maximal(r.json_prints())
         if len(keep) > num * 3:     # (simulation mode prints every candidate successor of every step)
             keep = c.rng.sample(keep, num * 3)
         for hist in keep:
             tr += 1
-            scns.append(build(c.rng, tr, cf_of(*p[:7]), [(o['t'], o['v'], o['b']) for o in hist]))
+            scns.append(build(c.rng, tr, cf_of(*p[:7]), of_hist(hist)))
         c.log('S2 TLC simulation %s: %d behaviours' % (p[:7], len(keep)))
+    # the side-by-side runs: S1 results, then their scenarios (same treatment as above)
+    fres = fut.result()
+    ex.shutdown()
+    flood_s1_results(c, fres, thorough)
+    c.cov['exhaustive'] = True
+    for kind, table in (('gen', GEN_FLOOD), ('sim', SIM_FLOOD)):
+        for i, p in enumerate(table):
+            r = fres['%s-%d' % (kind, i)]
+            if r.error:
+                raise MachineryError('scenario generation (floods) failed: %s\n%s' % (r.error, r.out[-1500:]))
+            keep = maximal(r.json_prints())
+            cap = (500 if not thorough else 8000) if kind == 'gen' else (300 if not thorough else 3000)
+            if len(keep) > cap:
+                keep = c.rng.sample(keep, cap)
+            cover_n += len(keep) if kind == 'gen' else 0
+            for hist in keep:
+                tr += 1
+                scns.append(build(c.rng, tr, cf_of(*p[:7]), of_hist(hist)))
+            c.log('S2 %s with floods %s: %d scenarios' % ('transition cover' if kind == 'gen' else 'TLC simulation', p[:7], len(keep)))
     nrand = 800 if not thorough else 8000
     rs = []
     for _ in range(nrand):
         tr += 1
         rs.append(random_scenario(c, tr))
+    # the flood family: large numbers of distinct values relative to the configured capacity
+    fs = []
+    for rep in range(1 if not thorough else 6):
+        for pcap, D in FLOOD_CAPS:
+            for mode in ('reject', 'throttle'):
+                for variant in FLOOD_VARIANTS:
+                    tr += 1
+                    fs.append(flood_scenario(c.rng, tr, mode, pcap, D, variant))
+    c.cov['flood_scenarios'] = len(fs)
+    c.cov['flood_capacities'] = ['%s/%ds' % (pc or 'default', D // 1000) for pc, D in FLOOD_CAPS]
     # S3 + S4 ----------------------------------------------------------------------------
     selftested = False
     nontriv = set()
-    for tag, group in (('tlc', scns), ('rand', rs)):
+    for tag, group in (('tlc', scns), ('flood', fs), ('rand', rs)):
         for i in range(0, len(group), 2500):
             part = group[i:i + 2500]
             mism, tp = run_and_validate(c, drv, part, '%s%d' % (tag, i))
             nontriv |= count_nontrivial(part, tp)
+            if tag == 'flood':
+                if not mism:
+                    binding_selftest(c, tp, set(), key='binding_selftest_flood_family')
+                st = flood_stats(tp)
+                for k, x in zip(('flood_requests_judged_below_capacity', 'flood_requests_below_capacity_limited', 'flood_requests_at_or_above_capacity'), st):
+                    c.cov[k] = c.cov.get(k, 0) + x
+                c.log('flood family: %d requests of a tracked value arrived with a flood in its recency rank and the rank below the capacity '
+                      '(%d of them rejected or delayed), %d with the rank at or above it (either outcome)' % st)
             if not selftested:
                 binding_selftest(c, tp, {m[0] for m in mism})
                 selftested = True
@@ -411,13 +714,20 @@ def check(c, tier, replay):
             handle_mismatches(c, drv, part, mism, tp, tag)
     c.cov['distinct_nontrivial'] = len(nontriv)
     c.cov['rule'] = ('scenarios = one per transition of bounded HotParamQps instances (%d) + TLC random simulation + seeded random '
-                     'multi-value arrival histories; non-trivial = distinct scenario in which the real code rejected or delayed at least one '
+                     'multi-value arrival histories + the flood family (hot value / n fresh values / hot value again, n around the configured capacity, '
+                     'capacities around the library\'s internal constants); non-trivial = distinct scenario in which the real code rejected or delayed at least one '
                      'request (the rule actually shaped traffic); conformance_mismatches = traces in which the real decision differs from the '
                      'transcribed algorithm layer (informational)' % cover_n)
     c.sample(scns[len(scns) // 2][:8])
     c.sample(rs[0][:8])
-    c.assumptions += ['E1, E2, P1 and Independence are demanded only while the number of distinct values seen by the rule does not exceed the '
-                      'configured parameter capacity (the statement\'s "while the configured parameter capacity is not exceeded"); E3, P2, NoArg always',
+    c.sample(fs[len(fs) // 2][:8])
+    c.assumptions += ['E1, E2, P1 and Independence are demanded for a value while the configured parameter capacity is not exceeded FOR IT: until one '
+                      'of its requests arrives after at least `capacity` distinct other values were used since its last admitted request (from then on '
+                      'the value may legitimately have been restarted; this is implied by - and demands more than - "no more distinct values seen '
+                      'than the capacity"); E3, P2, NoArg always',
+                      'the configured capacity is Rule.ParamsMaxCapacity when positive, however large, otherwise min(20000, 4000 x DurationInSec)',
+                      'every fresh value of a flood is admitted at once when the general threshold is >= 1 (a value never seen is idle for ever / its '
+                      'own sub-history is a single request)',
                       'a value never seen before counts as idle (E3); idle = time since the previous request for the value, whatever its outcome',
                       'with threshold 0 the pacing distance batch*duration/threshold is unbounded: at most one request may ever be scheduled',
                       'when a rule has both an attachment key and an index, the key has priority and the index is the fall-back (Rule.ParamKey doc)',
